@@ -17,6 +17,7 @@ RULE = (
     "interaction lattice (marginality not required), any order (_ordering='none' and the default degree order), "
     "cluster_by none / numerical_factors, intercept absent or present at any position, one encoding expression per "
     "variable from {bare column, C(v), treatment with explicit base, SAS, sum, helmert x4, diff x2, poly}; data = the "
+    "(level labels: strings, an empty string, integers from 0, floats that agree to 12 significant digits); "
     "full crossing of the levels replicated until rows >= 2 x columns, Gaussian numeric columns from "
     "default_rng(drawn seed). enumerated (exhaustive for that sub-space): every subset of the 7 possible terms over "
     "{A (3 levels), B (2 levels), x}, with and without intercept, in every order for <=3 terms (quick) / <=4 terms plus "
@@ -30,7 +31,7 @@ ASSUMPTIONS = [
     "numerical rank at relative tolerance 1e-8 on O(1) data decides structural rank",
 ]
 
-CATS = ["A", "B", "D", "E"]
+CATS = ["A", "B", "D", "E", "F"]
 NUMS = ["x", "y"]
 ENC = [None, "C", {"kind": "treatment", "base": 1}, {"kind": "SAS"}, {"kind": "sum"}, {"kind": "helmert"},
        {"kind": "helmert", "reverse": False}, {"kind": "helmert", "scale": True}, {"kind": "helmert", "reverse": False, "scale": True},
@@ -42,6 +43,9 @@ def level_labels(v, k):
         return list(range(k))  # integer levels starting at a falsy 0 (categorical dtype)
     if v == "D":
         return ["", "d1", "d2", "d3"][:k]  # first level is the empty string
+    if v == "F":
+        # float levels (a float column, always wrapped in C()) that only differ beyond the 12th significant digit
+        return [0.3, 0.1 + 0.2, 1700000000.0001, 1700000000.0002][:k]
     return [f"{v.lower()}{i}" for i in range(k)]
 
 
@@ -49,6 +53,8 @@ def enc_expr(v, enc, k):
     if v in NUMS and enc == "bs-icpt":
         # a numerical factor that itself spans the intercept (its columns sum to one)
         return f"bs({v}, df=4, include_intercept=True)"
+    if v == "F" and enc is None:
+        enc = "C"  # a bare float column would be numerical
     if v in NUMS or enc is None:
         return v
     if enc == "C":
@@ -66,7 +72,7 @@ def build_data(levels, used_cats, seed, reps):
     rows = cross * reps
     rng = np.random.default_rng(seed)
     data = {
-        v: (pd.Categorical([r[i] for r in rows], categories=level_labels(v, levels[v])) if v == "E" else pd.Series([r[i] for r in rows], dtype=object))
+        v: (pd.Categorical([r[i] for r in rows], categories=level_labels(v, levels[v])) if v == "E" else pd.Series([r[i] for r in rows], dtype=(float if v == "F" else object)))
         for i, v in enumerate(used_cats)
     }
     n = len(rows)
@@ -225,7 +231,7 @@ def enumerate_lattice(max_full_perm, sampled_beyond):
     return gen_
 
 
-BUDGET_S = {"quick": 75, "thorough": 1500}
+BUDGET_S = {"quick": 120, "thorough": 1500}
 THOROUGH_SHARDS = 16
 
 
